@@ -8,4 +8,5 @@ mkdir -p bin evidence replays build
 go build -o bin/vcheck ./cmd/vcheck
 ./bin/vcheck prebuild x || true
 CGO_ENABLED=1 go build -race -o bin/freeharness-race ./cmd/freeharness || echo "note: -race build not available"
+go build -cover -covermode=count -coverpkg=verif/cmd/ladderbin,github.com/tdewolff/minify/v2/...,github.com/tdewolff/parse/v2/... -o bin/ladderbin ./cmd/ladderbin || echo "note: cover build not available"
 echo "setup ok"
